@@ -1,0 +1,19 @@
+// +build verif
+
+package node
+
+import (
+	"github.com/youzan/ZanRedisDB/common"
+)
+
+// VerifSMRouter returns the apply-side command router of a kv state machine
+// (nil otherwise). Only compiled with the verif build tag.
+func VerifSMRouter(sm StateMachine) *common.SMCmdRouter {
+	if k, ok := sm.(*kvStoreSM); ok {
+		return k.router
+	}
+	return nil
+}
+
+// VerifCmdRouter returns the client-side command router of the node.
+func (nd *KVNode) VerifCmdRouter() *common.CmdRouter { return nd.router }
